@@ -50,6 +50,10 @@ CLAIMS = {
   "Cmp/Equals order laws (reflexivity, antisymmetry, transitivity, totality, consistency of Equals with Cmp==0) are lemmas over the real Cmp body unfolded for scalar operands: integers as 64-bit vectors, floats as IEEE doubles including NaN and ±0, strings, booleans, nil. "
   "The int↔float mixed comparison is not transitive beyond 2^53: recorded as a known finding with the solver's witness. Container comparison (element-wise recursion) is covered by a bounded stand-in.",
   "Assumed: string comparison axioms (strcmp) in the prelude; container Cmp recursion bounded."),
+ "C15": ("proof",
+  "Lexer level, decided for every input: the two modes differ only in the end marker. The field Lexer.lineMode is read by exactly one function (EOLEOF, contract proved: EOL in line mode, EOF otherwise), written only by the constructor on the object it allocates, and EOLEOF's result flows only into NextToken's return value (three SSA audit clauses); with NextToken's C16 contract this makes every non-end token and every lexer position the same function of (input, position) in both modes. "
+  "The parser (prefix/infix function-value tables) is outside govc's subset, so 'same tree', 'asks for more input' and the statement-by-statement session equivalence are covered by a bounded stand-in over the repository's examples, tests and generated programs (every token-boundary prefix), labelled bounded. One genuine deviation is recorded as a known finding.",
+  "Assumed: no reflective/unsafe access to the mode field; parser behaviour only bounded."),
  "C16": ("proof",
   "Token-stream tiling: NextToken and every helper are proved, for every input and lexer state satisfying wf(l), to return a token whose span is exactly input[s:pos] (after skipped whitespace), to advance, to stay within bounds, and to keep the intern tables consistent; "
   "comment bodies are minimal, EOF is sticky except at the two recorded NUL-byte findings.",
@@ -76,7 +80,6 @@ NOT_APPLICABLE = {
  "C04": "contracts for this property are not implemented yet (work in progress, see DESIGN.md section 6)",
  "C13": "contracts for this property are not implemented yet (work in progress, see DESIGN.md section 6)",
  "C14": "contracts for this property are not implemented yet (work in progress, see DESIGN.md section 6)",
- "C15": "contracts for this property are not implemented yet (work in progress, see DESIGN.md section 6)",
 }
 
 def main():
